@@ -431,6 +431,11 @@ def c11(res, rng, tier):
                               {"kind": "correspondence", "pickles_hex": [p.hex() for p in s], "pydict": pd, "strict": su,
                                "model": mo[:500], "impl": io[:500]}, found_input=False)
         nontriv += 1
+    # how many of these calls satisfy the hypothesis of the two memo theorems (AloneFacts.self_contained)
+    mf = C.modelrun(["memofree %s %s %s" % (pd, su, " ".join(p.hex() for p in s)) for (s, pd, su) in meta[::4]])
+    mf_calls = sum(len(x.split()) for x in mf)
+    mf_in = sum(1 for x in mf for t in x.split() if t[0] == "1")
+    sc_in = sum(1 for x in mf for t in x.split() if t[1] == "1")
     # values already returned are not altered by later Decode calls: implrun keeps every value and
     # dumps them all AFTER the last call; compared with dumps taken right after each call
     alines = ["decstable %s %s %s" % (pd, su, b"".join(s).hex()) for (s, pd, su) in meta[::2]]
@@ -509,7 +514,7 @@ def c11(res, rng, tier):
                 break
             sstats["impl_calls_compared"] += 1
     res.coverage.update({
-        "memo_sharing_streams": sstats,
+        "memo_sharing_streams": sstats, "calls_checked_for_memo_freedom": mf_calls, "calls_executing_no_memo_opcode": mf_in, "calls_self_contained_(hypothesis_of_the_two_memo_theorems)": sc_in,
         "evaluations": len(lines) + len(slines) + len(alines) + len(mlines), "distinct_nontrivial": nontriv,
         "rule": "streams of 1..8 self-contained pickles (grammar pickles at mixed protocols, hand-assembled memo-free programs leaving extra operands / marks / a protocol number / buffer contents behind, pickles failing at their last byte) + all ordered pairs of the hand-assembled ones, x 4 configs; each call compared with the same pickle decoded alone; earlier results re-dumped after the last call; non-trivial = streams whose every call matched",
         "programs": len(lines), "disagreements_checked": len(lines), "opcode_histogram_generated": hist})
